@@ -13,7 +13,8 @@ REQUIRED = ["CifModel.C15_skip_depth_balanced", "CifModel.C15_skip_depth_nonneg"
             "CifModel.C15_start_only_callbacks", "CifModel.C15_start_only_callbacks_layout",
             "CifModel.C15_dup_is_plain_without_duplicates", "CifModel.C15_dup_stop_semantics_without_duplicates",
             "CifModel.C15_dup_stop_semantics_store", "CifModel.C15_dup_cut_extends_mirror", "CifModel.C15_dup_events_sublist",
-            "CifModel.C15_callbacks_formula", "CifModel.C15_callbacks_formula_layout"]
+            "CifModel.C15_callbacks_formula", "CifModel.C15_callbacks_formula_layout",
+            "CifModel.C15_rec_is_dup_on_wellformed", "CifModel.C15_rec_is_dup_on_wellformed_layout"]
 GEN = ["ErrCodes"]
 FAMILIES = ["pcb"]
 TRUSTED_BASE = [
@@ -81,7 +82,11 @@ PARTIAL = [
     "document order (C15_dup_events_sublist).  NOT proved: an interpreter-free formula saying exactly WHICH callbacks (and "
     "error callbacks) are delivered for documents with duplicates under skipping / stopping programs (they are given by xDocD)",
     "recovery paths with handler code (CIF_PARTIAL_PACKET, CIF_EMPTY_LOOP, CIF_NULL_LOOP, CIF_MISSING_VALUE, "
-    "CIF_UNEXPECTED_VALUE under handler programs): model layer Model/ParseCBRec.lean + correspondence + oracle, no theorem",
+    "CIF_UNEXPECTED_VALUE under handler programs): model layer Model/ParseCBRec.lean (parseCBR, the model the pcb driver runs) + "
+    "correspondence + oracle; proved about it: on every well-formed document, with any layout, for every program it IS the "
+    "model of the theorems (C15_rec_is_dup_on_wellformed(_layout): no recovery path is taken; parseCBR = parseCBD), so the "
+    "correspondence run ties exactly the object of the theorems to src/parser.c; the behaviour ON the recovery paths (defective "
+    "documents) has no theorem",
 ]
 LEVEL_TEXT = ("Proof about the executable token-level models ParseCB.parseCB / parseCBD. For all token sequences and all handler programs: "
               "skip_depth balance of every production, an END / error answer is the last callback and determines the result, "
